@@ -7,6 +7,7 @@ import (
 	"strconv"
 	"strings"
 
+	"github.com/google/badwolf/bql/semantic"
 	"github.com/google/badwolf/bql/table"
 	"github.com/google/badwolf/storage"
 	"github.com/google/badwolf/triple"
@@ -230,13 +231,16 @@ type e2eCase struct {
 }
 
 // driverOrder lists the triples of ?g in the order the driver returns them (memory: sorted by Triple.String()).
-func driverOrder(ctx context.Context, st storage.Store) []*triple.Triple {
+func driverOrder(ctx context.Context, st storage.Store, lo *storage.LookupOptions) []*triple.Triple {
 	g, err := st.Graph(ctx, "?g")
 	if err != nil {
 		panic(err)
 	}
+	if lo == nil {
+		lo = storage.DefaultLookup
+	}
 	ch := make(chan *triple.Triple, 1000)
-	if err := g.Triples(ctx, storage.DefaultLookup, ch); err != nil {
+	if err := g.Triples(ctx, lo, ch); err != nil {
 		panic(err)
 	}
 	var out []*triple.Triple
@@ -363,7 +367,7 @@ func genE2E12(r *rand.Rand) e2eCase {
 	ts := genTriples(r, vK, wK, 2+r.Intn(8), class == "D12")
 	c.Triples = tripleStrings(ts)
 	st, from := newGraph(ctx, "?g", ts), "?g"
-	shapeRoll := r.Intn(7)
+	shapeRoll := r.Intn(8)
 	multi := r.Intn(3) == 0 || (shapeRoll == 5 && r.Intn(2) == 0) // full scans (the push-down shape) more often over several graphs
 	if multi {                                                    // the data split over 2-3 graphs in FROM (with overlaps): the driver is asked once per graph
 		st, from, c.Graphs = splitGraphs(ctx, r, ts)
@@ -372,6 +376,11 @@ func genE2E12(r *rand.Rand) e2eCase {
 	var sel, where string
 	var outs []string
 	switch shapeRoll {
+	case 7:
+		// a full scan whose output alias ?s is NOT the subject: ORDER BY ?s (ascending, the only key) + LIMIT must not be
+		// mistaken for "already in driver order"
+		c.Shape = "shadow-scan"
+		sel, where, outs = "?s AS ?who, ?o AS ?s", `{?s ?p ?o}`, []string{"?who", "?s"}
 	case 6:
 		// NAME COLLISION: an alias that is also the name of a pattern binding (ORDER BY ?o sorts by the subject)
 		c.Shape = "shadow"
@@ -395,7 +404,13 @@ func genE2E12(r *rand.Rand) e2eCase {
 		c.Shape = "full-scan" // the only shape for which the planner pushes LIMIT into the driver
 		sel, where, outs = "?s, ?p, ?o", `{?s ?p ?o}`, []string{"?s", "?p", "?o"}
 	}
-	c.BaseQ = "SELECT " + sel + " FROM " + from + " WHERE " + where + ";"
+	// statement-level time bounds (they restrict the temporal triples a full scan / an anchor clause returns)
+	bound := ""
+	if (c.Shape == "full-scan" || c.Shape == "anchor" || c.Shape == "shadow-scan") && r.Intn(2) == 0 {
+		bound = []string{" BEFORE 2020-01-01T00:00:00Z", " AFTER 2019-12-31T23:45:00Z", " AFTER 2020-01-01T00:00:00Z",
+			" BETWEEN 2019-12-31T00:00:00Z, 2020-01-01T00:00:01Z", " BEFORE 2000-01-01T00:00:00Z"}[r.Intn(5)]
+	}
+	c.BaseQ = "SELECT " + sel + " FROM " + from + " WHERE " + where + bound + ";"
 	q := "SELECT " + sel + " FROM " + from + " WHERE " + where
 	noOrder := r.Intn(5) == 0 || (c.Shape == "full-scan" && r.Intn(2) == 0) // LIMIT without ORDER BY: any min(n, N) rows
 	if !noOrder {
@@ -414,17 +429,22 @@ func genE2E12(r *rand.Rand) e2eCase {
 				}
 			}
 		}
+		if c.Shape == "shadow-scan" && r.Intn(2) == 0 {
+			c.Cfg = []jkey{{B: "?s", Desc: false}}
+		}
 		q += orderByText(c.Cfg, r)
 	}
-	if r.Intn(3) != 0 || noOrder {
+	q += bound
+	if r.Intn(3) != 0 || noOrder || c.Shape == "shadow-scan" {
 		n := int64(r.Intn(len(ts) + 2))
 		c.Limit = &n
 		q += fmt.Sprintf(` LIMIT "%d"^^type:int64`, n)
 	}
 	c.Q = q + ";"
-	c.Base, _ = runQuery(ctx, st, c.BaseQ)
-	if (c.Shape == "full-scan" || c.Shape == "anchor") && !multi {
-		for _, t := range driverOrder(ctx, st) {
+	var baseStm *semantic.Statement
+	c.Base, baseStm = runQuery(ctx, st, c.BaseQ)
+	if (c.Shape == "full-scan" || c.Shape == "anchor" || c.Shape == "shadow-scan") && !multi && baseStm != nil {
+		for _, t := range driverOrder(ctx, st, baseStm.GlobalLookupOptions()) {
 			m := true
 			if c.Shape == "anchor" {
 				m = string(t.Predicate().ID()) == "t" && t.Predicate().Type() == predicate.Temporal
